@@ -75,7 +75,7 @@ def run(ctx, build):
     lays = [l for l in gc.layouts_for(ctx, 22 if ctx.quick() else 250, dtypes=('f8', 'i4', 'c16'), max_elems=200 if ctx.quick() else 800,
                                       max_dims=3, extra_exhaustive=False) if not gc.more_dims_than_points(l)]
     # a few longer dimensions, so that unevenly spaced index lists exist
-    for ps, po, ss, so in (([6], [0], [5], [0]), ([2, 5], [0, 1], [6], [0]), ([2, 5], [1, 0], [2, 5], [1, 0]), ([5, 2], [0, 1], [7], [0])):
+    for ps, po, ss, so in (([6], [0], [5], [0]), ([2, 5], [0, 1], [6], [0]), ([2, 5], [1, 0], [2, 5], [1, 0]), ([5, 2], [0, 1], [7], [0]), ([8], [0], [3], [0]), ([2, 7], [1, 0], [2], [0])):
         lays.append(gen.Layout(ps, po, ss, so, dtype='f8'))
     acases, ameta, bcases, bmeta = [], [], [], []
     hist = {'layouts': 0, 'slices_2d': 0, 'slices_nd': 0, 'square_2d_results': 0, 'raised': {}, 'malformed_requests': 0, 'two_lists': 0,
@@ -109,11 +109,18 @@ def run(ctx, build):
                         sels[dd] = ('list', sorted(rng.sample(range(sizes[dd]), rng.randint(3, 4))), rng.choice([list, tuple, np.array]))
                 # designed selections (independent of the seed): an unevenly spaced list whose span is a multiple of (count - 1),
                 # alone on one long dimension
-                long_dims = [dd for dd in range(len(sizes)) if sizes[dd] >= 5]
-                if si < 2 * len(long_dims):
-                    dd = long_dims[si // 2]
+                # ... and, on a dimension of 7 or more, lists that are uneven inside although first, second and last index fit
+                # an even spacing
+                designed = []
+                for dd in range(len(sizes)):
+                    if sizes[dd] >= 5:
+                        designed += [(dd, [0, 1, 4]), (dd, [0, 3, 4])]
+                    if sizes[dd] >= 7:
+                        designed += [(dd, [0, 2, 3, 6]), (dd, [0, 2, 5, 6])]
+                if si < len(designed):
+                    dd, lst = designed[si]
                     sels = [('absent',)] * len(sizes)
-                    sels[dd] = ('list', [0, 1, 4] if si % 2 == 0 else [0, 3, 4], list)
+                    sels[dd] = ('list', lst, list)
                     bad = False
                 if rng.random() < 0.25:
                     # aim at a square 2-D result: pick the same number of rows and columns
